@@ -50,7 +50,9 @@ type c21cState struct {
 	indexes []c21cIndex // creation order
 }
 
-func c21cTableSQL(name string) string { return "CREATE TABLE " + name + " (id INTEGER PRIMARY KEY, v TEXT)" }
+func c21cTableSQL(name string) string {
+	return "CREATE TABLE " + name + " (id INTEGER PRIMARY KEY, v TEXT)"
+}
 func c21cIndexSQL(name, table string) string {
 	return "CREATE INDEX " + name + " ON " + table + "(v)"
 }
@@ -299,25 +301,36 @@ type c21cWorld struct {
 	// at which statement count each write was committed
 	commitAfterStmts []int
 	// statement failure injection (VerifC21cStmt)
-	failAt   int // index of the statement that fails, -1 = none
-	failed   bool
-	stmtHook bool // boundaries are statement starts (else: Write calls)
+	failAt       int  // index of the statement that fails, -1 = none
+	failStepping bool // it fails when the first row is fetched, not when it is started
+	failed       bool
+	stmtHook     bool // boundaries are statement starts (else: Write calls)
 	// symbolic connection model
-	ro, rw       *sql.DB
-	conns        []*c21cConnM
-	txs          []*c21cTxM
-	rows         []*c21cRowsM
-	ctypes       []*sql.ColumnType
-	ctypeNames   []string
-	reads        []int // version read by each statement of the dump
-	closedInTx   bool
-	connsOpened  int
-	connsClosed  int
-	sawTxOnConn  bool
-	foreignQuery bool
+	ro, rw      *sql.DB
+	conns       []*c21cConnM
+	txs         []*c21cTxM
+	rows        []*c21cRowsM
+	ctypes      []*sql.ColumnType
+	ctypeNames  []string
+	reads       []int // version read by each statement of the dump
+	closedInTx  bool
+	connsOpened int
+	connsClosed int
+	sawTxOnConn bool
+	hung        bool
 }
 
 var c21cW *c21cWorld
+
+// c21cChoice = verifChoice; natively the sweep (sweep_test.go) enumerates the choices through it
+var c21cChoiceNative func(name string, n int)
+
+func c21cChoice(name string, n int) int {
+	if !verifSymbolic() && c21cChoiceNative != nil {
+		c21cChoiceNative(name, n)
+	}
+	return verifChoice(name, n)
+}
 
 // native hooks (replay_test.go)
 var c21cOpenNative func(w *c21cWorld, build []string, stmtHook bool) *DB
@@ -344,7 +357,7 @@ func c21cStart(tier, maxWrites, kinds int, stmtHook bool) *c21cWorld {
 }
 
 func (w *c21cWorld) close() {
-	if !verifSymbolic() {
+	if !verifSymbolic() && !w.hung {
 		c21cCloseNative(w.d)
 	}
 }
@@ -367,12 +380,12 @@ func (w *c21cWorld) boundary(tag string) {
 	if len(app) == 0 {
 		return
 	}
-	if verifChoice(verifName("commit-at-"+tag, i), 2) == 0 {
+	if c21cChoice(verifName("commit-at-"+tag, i), 2) == 0 {
 		return
 	}
 	kind := app[0]
 	if len(app) > 1 {
-		kind = app[verifChoice(verifName("write", len(w.states)), len(app))]
+		kind = app[c21cChoice(verifName("write", len(w.states)), len(app))]
 	}
 	next, sqls := c21cApply(w.states[w.cur()], kind)
 	if !verifSymbolic() {
@@ -387,8 +400,9 @@ func (w *c21cWorld) boundary(tag string) {
 
 // beforeStatement is called when Dump starts a statement on its connection (symbolic: by the
 // connection model; native: by the pass-through driver of VerifC21cStmt, if installed).
-// It returns an error the statement has to fail with, or nil.
-func (w *c21cWorld) beforeStatement() error {
+// It returns the error the statement has to fail with - at once (the query call fails) or when
+// its first row is fetched (the query call succeeds, the cursor reports the error) - or nil, nil.
+func (w *c21cWorld) beforeStatement() (atStart, whileStepping error) {
 	n := w.stmts
 	if w.stmtHook {
 		w.boundary("stmt")
@@ -396,9 +410,34 @@ func (w *c21cWorld) beforeStatement() error {
 	w.stmts++
 	if w.failAt == n {
 		w.failed = true
-		return sqlite3.Error{Code: sqlite3.ErrIoErr}
+		if w.failStepping {
+			return nil, sqlite3.Error{Code: sqlite3.ErrIoErr}
+		}
+		return sqlite3.Error{Code: sqlite3.ErrIoErr}, nil
 	}
-	return nil
+	return nil, nil
+}
+
+type c21cHang struct{}
+
+var c21cRunDumpNative func(d *DB, out *c21cWriter, filter []string) (err error, hung bool)
+
+// c21cRunDump runs the real Dump. hung = Dump does not come back (natively: not within 5 s).
+func c21cRunDump(w *c21cWorld, out *c21cWriter, filter []string) (err error, hung bool) {
+	if !verifSymbolic() {
+		err, hung = c21cRunDumpNative(w.d, out, filter)
+		w.hung = hung
+		return err, hung
+	}
+	defer func() {
+		if r := recover(); r != nil {
+			if _, ok := r.(c21cHang); !ok {
+				panic(r)
+			}
+			hung = true
+		}
+	}()
+	return w.d.Dump(out, filter...), false
 }
 
 // the destination of the dump
@@ -562,6 +601,7 @@ type c21cRowsM struct {
 	types []string
 	data  [][]any
 	pos   int
+	err   error // reported instead of the first row
 }
 
 func (w *c21cWorld) connM(c *sql.Conn) *c21cConnM {
@@ -608,9 +648,16 @@ func c21cConnClose(c *sql.Conn) error {
 	if x.closed {
 		return sql.ErrConnDone
 	}
+	for _, t := range w.txs {
+		if t.conn == x && !t.done {
+			// database/sql: Conn.Close waits until a Tx begun on the connection has ended - for ever, here
+			panic(c21cHang{})
+		}
+	}
 	x.closed = true
 	w.connsClosed++
 	if x.inTx {
+		// a transaction begun with the SQL text BEGIN: database/sql knows nothing about it
 		w.closedInTx = true
 	}
 	return nil
@@ -708,8 +755,9 @@ func (w *c21cWorld) query(x *c21cConnM, q string, args []any) (*sql.Rows, error)
 	if x.closed {
 		return nil, sql.ErrConnDone
 	}
-	if err := w.beforeStatement(); err != nil {
-		return nil, err
+	failNow, failLater := w.beforeStatement()
+	if failNow != nil {
+		return nil, failNow
 	}
 	// which committed state does this statement see?
 	v := w.cur()
@@ -722,7 +770,7 @@ func (w *c21cWorld) query(x *c21cConnM, q string, args []any) (*sql.Rows, error)
 	w.reads = append(w.reads, v)
 	s := w.states[v]
 
-	m := &c21cRowsM{rs: &sql.Rows{}}
+	m := &c21cRowsM{rs: &sql.Rows{}, err: failLater}
 	n := c21cNormSQL(q)
 	switch {
 	case n == c21cListSQL || strings.HasPrefix(n, c21cListInSQL):
@@ -858,7 +906,7 @@ func c21cColumnTypeName(ct *sql.ColumnType) string {
 }
 func c21cRowsNext(rs *sql.Rows) bool {
 	m := c21cW.rowsM(rs)
-	if m.pos >= len(m.data) {
+	if m.err != nil || m.pos >= len(m.data) {
 		return false
 	}
 	m.pos++
@@ -874,7 +922,7 @@ func c21cRowsScan(rs *sql.Rows, dest ...any) error {
 	}
 	return nil
 }
-func c21cRowsErr(rs *sql.Rows) error   { c21cW.rowsM(rs); return nil }
+func c21cRowsErr(rs *sql.Rows) error   { return c21cW.rowsM(rs).err }
 func c21cRowsClose(rs *sql.Rows) error { return nil }
 
 // the message of a go-sqlite3 error comes from C (sqlite3_errstr)
@@ -896,7 +944,7 @@ func c21cBounds() (tier, maxWrites, kinds int, filter []string) {
 	maxWrites, kinds = 2, c21cCreate+1
 	if tier == 1 {
 		maxWrites, kinds = 3, c21cNumKinds
-		if verifChoice("tables", 2) == 1 {
+		if c21cChoice("tables", 2) == 1 {
 			// a dump of named tables; b (the table without an index) is left out
 			filter = []string{"a", "c"}
 		}
@@ -978,7 +1026,8 @@ func VerifC21cDump() {
 	w := c21cStart(tier, maxWrites, kinds, false)
 	defer w.close()
 	out := &c21cWriter{w: w}
-	err := w.d.Dump(out, filter...)
+	err, hung := c21cRunDump(w, out, filter)
+	verifAssert("C21c-dump-returns", !hung)
 	// nothing fails here and readers never wait for writers in WAL mode ("This function can be
 	// called when changes to the database are in flight")
 	verifAssert("C21c-dump-succeeds", err == nil)
@@ -1003,9 +1052,13 @@ func VerifC21cStmt() {
 	w := c21cStart(tier, maxWrites, kinds, true)
 	defer w.close()
 	// a dump sends: table list, 2 statements per table (at most one table more than initially), index list
-	w.failAt = verifChoice("failing-statement", 1+2+2*(len(w.states[0].tables)+1)) - 1
+	w.failAt = c21cChoice("failing-statement", 1+2+2*(len(w.states[0].tables)+1)) - 1
+	if w.failAt >= 0 {
+		w.failStepping = c21cChoice("fails-while-stepping", 2) == 1
+	}
 	out := &c21cWriter{w: w}
-	err := w.d.Dump(out, filter...)
+	err, hung := c21cRunDump(w, out, filter)
+	verifAssert("C21c-dump-returns", !hung)
 	c21cCheckPool(w)
 	if w.failed {
 		verifReach("a-statement-of-the-dump-failed")
@@ -1029,8 +1082,8 @@ func VerifC21cTwin() {
 	w := c21cStart(0, 1, c21cCreate+1, false)
 	defer w.close()
 	out := &c21cWriter{w: w}
-	err := w.d.Dump(out)
-	verifAssume(err == nil)
+	err, hung := c21cRunDump(w, out, nil)
+	verifAssume(!hung && err == nil)
 	verifAssume(len(w.states) == 2 && w.commitAfterStmts[0] == 0)
 	content, wellFormed, loadable := c21cParseDump(string(out.buf))
 	verifAssume(wellFormed && loadable)
